@@ -528,11 +528,18 @@ def fake_http_proxy(c, a, rec):
     elif host.startswith('status-'):
         # other legal spellings of a success status line (RFC 7230: the reason phrase may be empty)
         line = {'status-noreason': b'HTTP/1.1 200 ', 'status-http10': b'HTTP/1.0 200 OK', 'status-longreason': b'HTTP/1.1 200 Connection established, go ahead',
-                'status-201': b'HTTP/1.1 201 Created', 'status-299': b'HTTP/1.1 299 Fine'}.get(host.split('.')[0], b'HTTP/1.1 200 OK')
+                'status-201': b'HTTP/1.1 201 Created', 'status-299': b'HTTP/1.1 299 Fine',
+                # header fields without the optional blank behind the colon, with blanks around the value
+                'status-hdr-nospace': b'HTTP/1.1 200 OK\r\nVia:1.1 fake\r\nX-A:b', 'status-hdr-spaces': b'HTTP/1.1 200 OK\r\nVia:   1.1 fake  \r\nX-Empty:',
+                }.get(host.split('.')[0], b'HTTP/1.1 200 OK')
         c.sendall(line + b'\r\n\r\n')
         if rest:
             c.sendall(rest)
         _echo_loop(c)
+    elif host == 'blankline.test':
+        # a line of blanks inside the head is not the end of the head: what follows it must not reach the client as payload
+        c.sendall(b'HTTP/1.1 200 OK\r\nA: b\r\n \r\nSecret-Header: must-not-leak\r\n\r\n')
+        time.sleep(0.5)
     elif host.startswith('glued-'):
         # the origin speaks first and its n bytes travel in the same segment as the proxy's reply
         n = int(host.split('-')[1].split('.')[0])
